@@ -37,9 +37,10 @@ pub fn run(args: &Args) {
     while accepted < n && tries < n * 20 {
         tries += 1;
         let mut grng = rng.fork();
-        let family = match tries % 5 {
+        let family = match tries % 6 {
             0 => "skip_rule_modifiers",
             1 => "rules_named_like_builtins",
+            2 => "unicode_property_builtins",
             _ => "full",
         };
         let mut cfg = GenCfg::new(Profile::Full);
@@ -54,6 +55,25 @@ pub fn run(args: &Args) {
             _ => {}
         }
         let mut rules = gen_grammar(&mut grng, &cfg);
+        if family == "unicode_property_builtins" {
+            // every advertised property name gets its turn as a built-in rule in both back-ends
+            let names: Vec<&str> = pest::unicode::unicode_property_names().collect();
+            let mut body: Option<pest_meta::ast::Expr> = None;
+            for _ in 0..1 + grng.below(4) {
+                let id = pest_meta::ast::Expr::Ident(names[grng.below(names.len())].to_string());
+                body = Some(match body {
+                    None => id,
+                    Some(b) => {
+                        if grng.chance(1, 2) {
+                            pest_meta::ast::Expr::Choice(Box::new(b), Box::new(id))
+                        } else {
+                            pest_meta::ast::Expr::Seq(Box::new(b), Box::new(id))
+                        }
+                    }
+                });
+            }
+            rules.push(pest_meta::ast::Rule { name: "uni".into(), ty: pest_meta::ast::RuleType::Normal, expr: pest_meta::ast::Expr::RepOnce(Box::new(body.unwrap())) });
+        }
         let mut forced_input: Option<String> = None;
         let mut family = family;
         if let Some((g, _r, i)) = witnesses.pop() {
